@@ -217,6 +217,130 @@ func runC09(c *Ctx) {
 	checkEarlyWgAccounting(c)
 	checkEarlyWgOrdering(c)
 
+	// ---------------------------------------------------------------- R11
+	c.rule("R11", "what a query occupies besides its reservation is given back on every exit: its wire id leaves the waiter table by an unconditional deferred removal; a QUIC stream's receive side is released (CancelRead) on every path; every ReservedExchanger implementation is known", 5)
+	{
+		var ins *ssa.Function
+		for _, w := range p.whoWrites().byField[T+"TraditionalDnsConn.queue"] {
+			if w.Kind == "mapupdate" {
+				ins = w.Fn
+			}
+		}
+		if ins != nil {
+			checkWaiterLifetime(c, fns, ins)
+		}
+		// implementers of ReservedExchanger
+		known := map[string]bool{"tdcOneTimeExchanger": true, "lazyDnsConnEarlyReservedExchanger": true, "quicReservedExchanger": true, "dummyEchoDnsConn": true}
+		for _, f := range fns {
+			if f.Name() != "WithdrawReserved" || f.Signature.Recv() == nil || f.Synthetic != "" {
+				continue
+			}
+			rt := f.Signature.Recv().Type()
+			if pt, ok := rt.(*types.Pointer); ok {
+				rt = pt.Elem()
+			}
+			short := rt.String()
+			if nt, ok := rt.(*types.Named); ok {
+				short = nt.Obj().Name()
+			}
+			c.check(known[short], "exchanger-known:"+short, f.Pos(), "release rules exist for this ReservedExchanger implementation", "a ReservedExchanger implementation ("+short+") without release rules: its capacity accounting is not checked")
+		}
+		for _, m := range []string{"ExchangeReserved", "WithdrawReserved"} {
+			f := c.fn(relTransport, "quicReservedExchanger", m)
+			if f == nil {
+				continue
+			}
+			isCancelRead := func(x ssa.Instruction) bool {
+				cl, ok := x.(*ssa.Call)
+				return ok && cl.Call.IsInvoke() && cl.Call.Method.Name() == "CancelRead"
+			}
+			_, leak := reachFromBlock(f.Blocks[0], func(x ssa.Instruction) bool { return isReturn(x) && x.Block().Comment != "recover" }, isCancelRead)
+			c.check(!leak, "stream-released@"+funcName(f), f.Pos(), "every path releases the stream's receive side (CancelRead)",
+				"a path of "+m+" returns without CancelRead on the reserved stream: no STOP_SENDING is sent, the stream stays open at the peer and counts against the connection's stream limit — cancelled queries use the connection's capacity up")
+		}
+	}
+
+	// ---------------------------------------------------------------- R10
+	c.rule("R10", "the configured limits reach the admission tests: each limit field is set once, in its constructor, from the matching option (setDefaultGZ(&field, option, constant default) / the constructor parameter)", 4)
+	{
+		type lim struct{ field, option string }
+		lims := []lim{
+			{T + "TraditionalDnsConn.maxCq", "TraditionalDnsConnOpts.MaxConcurrentQuery"},
+			{T + "PipelineTransport.maxLazyConnQueue", "PipelineOpts.MaxConcurrentQueryWhileDialing"},
+		}
+		for _, l := range lims {
+			n := 0
+			for _, f := range fns {
+				eachInstr(f, func(in ssa.Instruction) {
+					ci, ok := in.(*ssa.Call)
+					if !ok || !strings.HasSuffix(callName(ci), ".setDefaultGZ") || len(ci.Call.Args) != 3 {
+						return
+					}
+					if k, _ := fieldKey(ci.Call.Args[0]); k != l.field {
+						return
+					}
+					n++
+					src, _ := loadedField(ci.Call.Args[1])
+					_, dConst := constInt(ci.Call.Args[2])
+					c.check(strings.HasSuffix(src, "."+l.option) && dConst, "limit-from-option:"+fieldTail(l.field), instrPos(in),
+						"limit = option if > 0 else the constant default", "the limit field is set from "+exprStr(ci.Call.Args[1])+" / default "+exprStr(ci.Call.Args[2])+", not from "+l.option+" with a constant default: the configured limit is ignored")
+				})
+			}
+			// no other writer
+			for _, w := range p.whoWrites().byField[l.field] {
+				c.fail("limit-from-option:"+fieldTail(l.field), instrPos(w.Instr), "the limit field is written directly in %s", funcName(w.Fn))
+			}
+			if n != 1 {
+				c.fail("limit-from-option:"+fieldTail(l.field), 0, "expected exactly one setDefaultGZ(&%s, ...) call, found %d", fieldTail(l.field), n)
+			}
+		}
+		// the helper: *i = s under s > 0, else *i = d
+		if sd := p.Func(relTransport, "", "setDefaultGZ"); sd != nil {
+			c.see(sd)
+			okS, okD := false, false
+			eachInstr(sd, func(in ssa.Instruction) {
+				st, ok := in.(*ssa.Store)
+				if !ok || st.Addr != ssa.Value(sd.Params[0]) {
+					return
+				}
+				pos := false
+				for _, g := range guardsOfInstr(in) {
+					if cm, ok := g.asCmp(); ok && cm.X == ssa.Value(sd.Params[1]) && cm.Op == token.GTR {
+						if n, ok := constInt(cm.Y); ok && n == 0 {
+							pos = true
+						}
+					}
+				}
+				if st.Val == ssa.Value(sd.Params[1]) && pos {
+					okS = true
+				}
+				if st.Val == ssa.Value(sd.Params[2]) && !pos {
+					okD = true
+				}
+			})
+			c.check(okS && okD, "setDefaultGZ", sd.Pos(), "*i = s when s > 0, else d", "setDefaultGZ does not store the given value when it is positive and the default otherwise")
+		} else {
+			c.anchorMissing("transport.setDefaultGZ")
+		}
+		// the dialing-phase limit of a lazy connection is the constructor's parameter
+		if nl := c.fn(relTransport, "", "newLazyDnsConn"); nl != nil {
+			ws := p.whoWrites().byField[T+"lazyDnsConn.maxConcurrentQuery"]
+			good := len(ws) == 1
+			for _, w := range ws {
+				isP := false
+				for _, pa := range nl.Params {
+					if w.Val == ssa.Value(pa) && strings.Contains(pa.Name(), "oncurrent") {
+						isP = true
+					}
+				}
+				if w.Fn != nl || !isP {
+					good = false
+				}
+			}
+			c.check(good, "limit-from-option:lazyDnsConn.maxConcurrentQuery", nl.Pos(), "the dialing-phase limit is the constructor's parameter", "lazyDnsConn.maxConcurrentQuery is not set exactly once from newLazyDnsConn's limit parameter")
+		}
+	}
+
 	// ---------------------------------------------------------------- R9
 	c.rule("R9", "a dialled connection changes hands between goroutines only by rendezvous (unbuffered channel), so it always has exactly one owner", 1)
 	checkConnHandOverRendezvous(c, fns)
